@@ -208,9 +208,19 @@ func (t *pbfTracer) runBody(fi *FuncInfo, body *ast.BlockStmt, st0 int, depth in
 		paths := []pbfPath{{st: st}}
 		var lastRet *ast.ReturnStmt
 		noReturn := false
+		// a branch condition with conditionally evaluated calls is executed with short-circuit semantics below
+		var scCond ast.Expr
+		if len(b.Succs) == 2 && len(b.Nodes) > 0 && b.Succs[0].Kind != cfg.KindSwitchCaseBody {
+			if e, ok := b.Nodes[len(b.Nodes)-1].(ast.Expr); ok && t.branchCond(b, par) == e && pbfNeedsShortCircuit(e) {
+				scCond = e
+			}
+		}
 		for _, n := range b.Nodes {
 			if cc, ok := par[n].(*ast.CommClause); ok && cc.Comm == n {
 				continue // comm statement of a select: reported through the chosen clause
+			}
+			if scCond != nil && n == ast.Node(scCond) {
+				continue
 			}
 			var next []pbfPath
 			for _, p := range paths {
@@ -252,6 +262,16 @@ func (t *pbfTracer) runBody(fi *FuncInfo, body *ast.BlockStmt, st0 int, depth in
 		if len(b.Succs) == 1 {
 			for _, p := range paths {
 				work = append(work, item{b.Succs[0], p.st})
+			}
+			continue
+		}
+		if scCond != nil {
+			tp, fp := t.evalCond(paths, scCond, mk, fi, depth, calls)
+			for _, p := range tp {
+				work = append(work, item{b.Succs[0], p.st})
+			}
+			for _, p := range fp {
+				work = append(work, item{b.Succs[1], p.st})
 			}
 			continue
 		}
